@@ -20,8 +20,13 @@ OPS = {
     "s1": ("bundle", "s1", ("A",)),
     "s2": ("bundle", "s2", ("A", "B")),
     "s3": ("bundle", "s3", ("B",)),
+    # bundles that are abandoned: the objects are read (and their configuration cached) but no descriptor/event is made
+    "d1": ("dropbundle", "s1", ("A",)),
+    "d2": ("dropbundle", "s2", ("A", "B")),
 }
-ALPHABET = list(OPS)
+ALPHABET = ["cA1", "cA2", "cB", "s1", "s2", "s3"]
+ALPHABET_D = ALPHABET + ["d1", "d2"]  # family D: only the sequences that contain a dropped bundle (the others are family A)
+MAXLEN_D = {"quick": 4, "thorough": 5}
 KEYS = {"A": ("A1", "A2"), "B": ("B1",)}
 STREAM_OBJS = {o[1]: o[2] for o in OPS.values() if o[0] == "bundle"}
 MAXLEN = {"quick": 5, "thorough": 7}
@@ -35,7 +40,9 @@ RULE = (
     "has configuration[obj]['data'] == the recorded configuration of every object of its stream at that moment and data_keys identical to the stream's "
     "first descriptor; every event names an earlier descriptor of its stream carrying the configuration current at the event, and if an object of the "
     "stream was configured to a different value since, that descriptor was emitted after that configure; the configure yield receives (old, new); "
-    "non-trivial = a value-changing configure(X) hit a stream that already had a descriptor AND a later event was emitted on such a stream"
+    "family D: ALL sequences of length 1..4 (quick) / 1..5 (thorough) over those six plus {create/read A/drop on s1, create/read A,B/drop on s2} that contain a dropped bundle "
+    "(the object's configuration is read and cached but no descriptor is made; a dropped bundle emits no document); "
+    "non-trivial = a value-changing configure(X) hit a stream that already had a descriptor AND a later event was emitted on such a stream, or (family D) a value-changing configure(X) followed a dropped bundle that read X and a later descriptor contains X"
 )
 ASSUMPTIONS = [
     "devices are harness fakes whose configuration changes only through Msg('configure') of the plan; each sequence starts from gain=1 (reset by the plan, outside the engine)",
@@ -49,7 +56,7 @@ ASSUMPTIONS = [
 def describe(tier):
     n = MAXLEN[tier]
     return {
-        "bounds": {"alphabet": ALPHABET, "length": f"1..{n}", "sequences": _nseq(tier), "deviations": 0},
+        "bounds": {"alphabet": ALPHABET, "length": f"1..{n}", "sequences": _nseq(tier), "deviations": 0, "family_D": {"alphabet": ALPHABET_D, "length": f"1..{MAXLEN_D[tier]}", "sequences": len(_fam_d(tier))}},
         "states_means": "distinct per-sequence observation digests (per operation: outcome, documents, descriptor stream + configuration values, event stream/seq_num/age of its descriptor)",
     }
 
@@ -71,9 +78,19 @@ def _seq_at(index):
     return tuple(reversed(out))
 
 
+_FAM_D = {}
+
+
+def _fam_d(tier):
+    if tier not in _FAM_D:
+        _FAM_D[tier] = [q for n in range(1, MAXLEN_D[tier] + 1) for q in itertools.product(ALPHABET_D, repeat=n) if "d1" in q or "d2" in q]
+    return _FAM_D[tier]
+
+
 def items(tier, seed):
     total = _nseq(tier)
-    return [{"lo": lo, "hi": min(total, lo + ITEM)} for lo in range(0, total, ITEM)]
+    nd = len(_fam_d(tier))
+    return [{"lo": lo, "hi": min(total, lo + ITEM)} for lo in range(0, total, ITEM)] + [{"fam": "D", "tier": tier, "lo": lo, "hi": min(nd, lo + ITEM)} for lo in range(0, nd, ITEM)]
 
 
 # ----------------------------------------------------------------------------- scenario
@@ -99,6 +116,11 @@ def _scenario_class():
                 kind, a, b = OPS[code]
                 if kind == "configure":
                     yield (k, "configure"), Msg("configure", d[a], gain=b)
+                elif kind == "dropbundle":
+                    yield (k, "create"), Msg("create", None, name=a)
+                    for o in b:
+                        yield (k, "read:" + o), Msg("read", d[o])
+                    yield (k, "drop"), Msg("drop")
                 else:
                     yield (k, "create"), Msg("create", None, name=a)
                     for o in b:
@@ -174,6 +196,9 @@ def judge(seq, entries, docs, docs_of):
     barrier = {s: -1 for s in STREAM_OBJS}  # stream -> doc index after which its events' descriptor must have been made
     run_uid = None
     hit_existing = False
+    cached_only = set()  # objects read by a dropped bundle and not yet in any descriptor
+    stale_risk = set()  # ... and then configured to a different value
+    d_nontrivial = False
 
     def check_descriptor(di, doc, where):
         name = doc.get("name")
@@ -200,6 +225,11 @@ def judge(seq, entries, docs, docs_of):
             return _v("descriptor-data-keys", f"{seq}: descriptor of {name!r} data_keys={sorted(doc.get('data_keys', {}))} object_keys={doc.get('object_keys')}", f"{where}|{name}")
         if name in first and doc.get("data_keys") != first[name].get("data_keys"):
             return _v("data-keys-changed", f"{seq}: new descriptor of {name!r} ({where}) data_keys {doc.get('data_keys')} != first descriptor's {first[name].get('data_keys')}", f"{where}|{name}")
+        nonlocal d_nontrivial
+        if stale_risk & set(objs):
+            d_nontrivial = True
+        cached_only.difference_update(objs)
+        stale_risk.difference_update(objs)
         first.setdefault(name, doc)
         descs[doc["uid"]] = (di, doc)
         facts["descriptors"] += 1
@@ -226,6 +256,8 @@ def judge(seq, entries, docs, docs_of):
                 return _v("configure-response", f"{seq} op#{oi}: configure({a}, gain={b}) with recorded gain {old_v} returned {value!r}", "configure"), facts
             cfg[a] = b
             changed = b != old_v
+            if changed and a in cached_only:
+                stale_risk.add(a)
             if any(n != "descriptor" for n in names):
                 return _v("unexpected-documents", f"{seq} op#{oi} {code} emitted {list(names)}", f"configure|{'+'.join(sorted(set(names)))}"), facts
             got_streams = []
@@ -287,8 +319,13 @@ def judge(seq, entries, docs, docs_of):
         else:
             if names:
                 return _v("unexpected-documents", f"{seq} op#{oi} {part} emitted {list(names)}", f"{part.split(':')[0]}|{'+'.join(sorted(set(names)))}"), facts
+            if part == "drop":
+                in_desc = set()
+                for s_ in first:
+                    in_desc |= set(STREAM_OBJS[s_])
+                cached_only.update(set(b) - in_desc)
         facts["observed"].append((part, tuple(obs_docs)))
-    facts["nontrivial"] = bool(hit_existing and facts["renewals_used"])
+    facts["nontrivial"] = bool((hit_existing and facts["renewals_used"]) or d_nontrivial)
     return None, facts
 
 
@@ -324,7 +361,10 @@ def _run_batch(seqs):
 
 
 def run_item(item):
-    seqs = [_seq_at(i) for i in range(item["lo"], item["hi"])]
+    if item.get("fam") == "D":
+        seqs = _fam_d(item["tier"])[item["lo"] : item["hi"]]
+    else:
+        seqs = [_seq_at(i) for i in range(item["lo"], item["hi"])]
     out = {
         "evaluations": 0,
         "transitions": 0,
